@@ -36,9 +36,9 @@ CHECKS = {
    note="Trusted: vref::canon, ring. RDATA outside the per-type alphabets, RSASHA1/DSA not covered.",
    design="6/C05, 11"),
  "C11": dict(level="exploration", engine="E-ENUM",
-   technique="exhaustive enumeration of a structured request product, all prefixes and single-byte substitutions of 40 representative requests and all short strings over a structural alphabet, x catalog shapes x access lists x UDP/TCP, each followed by a probe query, against a reference front door written from the statement",
-   text="8 M (quick) / 76 M (thorough) raw requests through the real server front door (Server::with_access + hook verif_handle_raw_request -> Catalog -> in-memory zones): 10 catalog shapes x 14 access-list configurations x UDP/TCP x ids/opcodes/flags/section counts/qnames (incl. pointer forms, 255/256-octet names)/qtypes/qclasses/16 EDNS variants, every prefix and substitution of 40 seeds, all strings over S behind fixed headers. Oracle: 0 responses iff <12 octets or QR=1 else exactly 1 with QR and id; decoded question echo; rcode in the SET the statement admits; answering zone = longest suffix (TXT markers); no panic; probe answer unchanged.",
-   note="Trusted: the reference front door (crates/c11/src/frontdoor.rs), vref::wire. Three-valued 'body parses' so grey inputs are only tolerated, never demanded. DoT/DoH/DoQ front ends and applied updates are not covered.",
+   technique="exhaustive enumeration of structured request products, all prefixes and single-byte substitutions of 40 representative requests, all short strings over a structural alphabet, an access-list product, interleaved multi-source histories and an updatable-zone family, x catalog shapes x access lists x UDP/TCP, each followed by a probe query, against a reference front door written from the statement",
+   text="3.0 M (quick) / 101 M (thorough) raw requests through the real server front door (Server::with_access + hook verif_handle_raw_request -> Catalog -> in-memory / Sqlite zones): 15 catalog shapes (nested, siblings, root, empty, chained skip handlers, transfers allowed, mixed-case origins, secondary, NSID) x 14 access rows plus an exhaustive product of 6 sources x deny/allow subsets of a 10-net alphabet (18.8 k / 186 k configurations) x UDP/TCP x ids/opcodes 0..15/flags/16 section-count variants/33 qnames plus all names of <=3 labels over {*,a,x,z} (pointer forms, 255/256-octet names)/qtypes/qclasses/16 EDNS variants, EDNS option bodies x version, every prefix and substitution of 40 seeds (thorough: all 256 values and pairs), all strings over S as messages and behind fixed headers, 65 KB requests, 99 k pair (8.3 M triple) histories of 7 sources on one server vs the request alone, 2,160 UPDATE/TSIG cases on an updatable zone. Quick keeps every dimension with its smallest non-trivial value set; the deepest bounds (all 14 access rows x every opcode, all shapes x class/type/EDNS, NS/MX/AAAA, length-5/6 strings, long option bodies, triples) are thorough-only. Oracle: 0 responses iff <12 octets or QR=1 else exactly 1 with QR and id; decoded question echo; rcode in the SET the statement admits; answering zone = longest suffix (TXT markers, SOA/NS owners); no panic; probe answer unchanged; interleaved response = response alone.",
+   note="Trusted: the reference front door (crates/c11/src/frontdoor.rs), vref::wire. Three-valued 'body parses' and three readings of the access-list semantics, so open inputs are only tolerated, never demanded. DoT/DoH/DoQ front ends, the socket loops (sanitize_src_address, response destination) and External (forwarder) zones are not covered. coverage.family_wall_s_and_cases gives wall time and case count per family.",
    design="6/C11, 11"),
  "C18": dict(level="fault_enumeration", engine="E-ENUM+E-SCHED",
    technique="exhaustive enumeration of fault assignments to 1..4 scripted servers x strategies x concurrency x TCP availability, deviation-bounded (d<=2/3) latency/fault schedules, and caller arrival/cancellation plans, on the real pool under virtual time",
